@@ -10,7 +10,8 @@
 //   ProjMatrixByBinUsingInterpolation::{parse (the five symmetry switches), set_up, enable_cache, ..., get_proj_matrix_elems_for_one_bin}
 //   ProjMatrixElemsForOneBin::{merge, sort}
 // on small generated cylindrical geometries (span 1/2/3/4, outer segments cut off by max_delta, view mashing, TOF with and
-// without TOF mashing, arc correction, odd/even and anisotropic images, finer z sampling, shifted origins).
+// without TOF mashing, arc correction, odd/even and anisotropic images, finer z sampling, shifted origins, data with
+// reduced index ranges).
 //
 // Usage: c03_symmetries <seed> <quick|thorough> <opsfile> <implfile>
 //  section A (ops `cfg`, `sym`)  : every bin x all 32 switch combinations, compared with the Lean model line by line
@@ -24,6 +25,12 @@
 //                                  no-symmetry/no-cache row (the property's own statement)
 //  section D (op `merge`)        : ProjMatrixElemsForOneBin::merge against the pointwise sum
 //  section E (oracle only)       : set_up again for an image that differs in its index range only, all bins, 3 cache modes
+//  section F (ops `p*`)          : set_up again, on one object, for data CONTAINED in the previous data (clone with reduced axial /
+//                                  tangential / segment ranges, same image), containing them or overlapping with them; every row
+//                                  afterwards against the model and a new matrix, 3 cache modes
+// Geometries with x voxel size != y voxel size in either direction (differences on both sides of the 2e-3 mm threshold of
+// the constructor's guard) on data for which the x/y exchanging symmetries can be in force run through sections A and C;
+// the voxel sizes go to the model as hex floats and the model evaluates the guard.
 // Diagnostics: C03_FAIL_CLASSES=1 prints every ORACLE-FAIL line and a histogram of failing configurations;
 //              C03_ALLFLAGS=1 sweeps all 32 switch combinations for the interpolating matrix on the special geometries.
 #include "stir_fixtures.h"
@@ -139,8 +146,10 @@ build_geo(const GeoSpec& sp, int id)
   if (sp.reduced())
     {
       shared_ptr<ProjDataInfo> q(base.clone());
-      if (sp.seg_cut > 0)
-        q->reduce_segment_range(q->get_min_segment_num() + sp.seg_cut, q->get_max_segment_num() - sp.seg_cut);
+      // (segment 0 always stays)
+      const int cut = std::min(sp.seg_cut, std::min(q->get_max_segment_num(), -q->get_min_segment_num()));
+      if (cut > 0)
+        q->reduce_segment_range(q->get_min_segment_num() + cut, q->get_max_segment_num() - cut);
       for (int s = q->get_min_segment_num(); s <= q->get_max_segment_num(); ++s)
         if (sp.trim_seg < 0 || std::abs(s) == sp.trim_seg)
           {
@@ -823,6 +832,25 @@ oracle_row(const Geo& g, const MatrixCfg& c, const char* mode, const Bin& b, con
           return;
         }
     }
+  if (g.vx != g.vy && std::fabs(g.vy - g.vx) <= 2.E-3F && e.d90)
+    {
+      // does the operation of this bin exchange the x and y indices?
+      Bin bb = b;
+      unique_ptr<SymmetryOperation> op = pm.get_symmetries_ptr()->find_symmetry_operation_from_basic_bin(bb);
+      BasicCoordinate<3, int> probe = make_coordinate(0, 1, 2);
+      op->transform_image_coordinates(probe);
+      if (std::abs(probe[2]) == 2)
+        {
+          known_candidate("unequal-xy-voxel-sizes-within-guard-tolerance:xy-exchanging-symmetry",
+                          "DataSymmetriesForBins_PET_CartesianGrid takes x and y voxel sizes that differ by up to 2e-3 mm for equal "
+                          "(fabs(dy-dx) > 2.E-3F switches the x/y exchanging symmetries off): for 0 < |dy-dx| <= 2e-3 mm the rows of the "
+                          "views in (45,135] degrees are derived by exchanging the x and y indices of a grid that is not exactly "
+                          "symmetric; where a ray cuts a voxel near a corner at a shallow angle the length changes by several times "
+                          "the displacement of the voxel edge (half the image width times the difference), more than the 2e-3 of the "
+                          "row maximum that the library's own comparison of rows accepts: first case of this run: " + what + ": " + ctx.str());
+          return;
+        }
+    }
   oracle_fail("row differs from the directly computed row at " + what + ": " + ctx.str());
   if (std::getenv("C03_FAIL_CLASSES"))
     {
@@ -1223,7 +1251,8 @@ section_E(const Geo& g1, const Geo& g2, vh::Rng& rng, int kind = 0)
 // set_up again, on ONE object, for projection data that are CONTAINED in the data of the previous set_up (or contain them):
 // ProjDataInfo::operator>= holds (index ranges of segments, axial and tangential positions fit, all else equal) but the
 // data are not equal, and with a reduced axial range the same bin numbers are other LORs (axial positions are centred on
-// the scanner).  The rows afterwards must be those of the second geometry: every request goes to the model (exact
+// the scanner); also for data that are reductions of the same data without one containing the other (e.g. as many
+// axial positions removed at the lower end here as at the upper end there).  The rows afterwards must be those of the second geometry: every request goes to the model (exact
 // comparison with the cache state machine, for which the two are different geometries) and to the oracle (a new matrix
 // set up for the second geometry alone, no symmetries, no cache).
 static void
@@ -1232,20 +1261,18 @@ section_F(const std::vector<const Geo*>& chain_in, vh::Rng& rng, int kind, int f
   // (a generated reduction that changes nothing gives the same geometry again: left out)
   std::vector<const Geo*> chain;
   for (const Geo* g : chain_in)
-    if (chain.empty() || chain.back()->eqclass != g->eqclass)
+    {
+      if (!chain.empty()
+          && (chain.back()->eqclass == g->eqclass || !(chain.back()->image->get_voxel_size() == g->image->get_voxel_size())
+              || !same_index_range(*chain.back(), *g) || *chain.back()->pdi == *g->pdi))
+        {
+          histo["F:left-out(equal)"]++;
+          continue;
+        }
       chain.push_back(g);
+    }
   if (chain.size() < 2)
     return;
-  for (std::size_t k = 0; k + 1 < chain.size(); ++k)
-    if (!(chain[k]->image->get_voxel_size() == chain[k + 1]->image->get_voxel_size()) || !same_index_range(*chain[k], *chain[k + 1])
-        || *chain[k]->pdi == *chain[k + 1]->pdi || !(*chain[k]->pdi >= *chain[k + 1]->pdi || *chain[k + 1]->pdi >= *chain[k]->pdi))
-      {
-        std::fprintf(stderr, "c03 harness: section F pair %d,%d: not the same image with contained, unequal data (voxel %d range %d equal %d >= %d <= %d) [%s] [%s]\n", chain[k]->id, chain[k + 1]->id,
-                     chain[k]->image->get_voxel_size() == chain[k + 1]->image->get_voxel_size(), same_index_range(*chain[k], *chain[k + 1]),
-                     *chain[k]->pdi == *chain[k + 1]->pdi, *chain[k]->pdi >= *chain[k + 1]->pdi, *chain[k + 1]->pdi >= *chain[k]->pdi,
-                     spec_str(chain[k]->sp).c_str(), spec_str(chain[k + 1]->sp).c_str());
-        std::exit(3);
-      }
   for (int mode = 0; mode < 3; ++mode)
     {
       Hist h(kind);
@@ -1269,7 +1296,10 @@ section_F(const std::vector<const Geo*>& chain_in, vh::Rng& rng, int kind, int f
             if (!h.get(g.bins[i]))
               return;
           if (k > 0)
-            histo[std::string(kind ? "F:interp-" : "F:") + (*chain[k - 1]->pdi >= *g.pdi ? "set_up-for-contained-data-" : "set_up-for-containing-data-") + h.mode]++;
+            histo[std::string(kind ? "F:interp-" : "F:")
+                  + (*chain[k - 1]->pdi >= *g.pdi ? "set_up-for-contained-data-"
+                                                  : (*g.pdi >= *chain[k - 1]->pdi ? "set_up-for-containing-data-" : "set_up-for-overlapping-data-"))
+                  + h.mode]++;
         }
     }
 }
@@ -1336,6 +1366,18 @@ section_D(vh::Rng& rng, int cases)
 }
 
 // ------------------------------------------------------------------------------------------------ main
+
+#include <chrono>
+// C03_TIMING=1: wall time of the sections on stderr
+static void
+lap(const char* what)
+{
+  static auto t0 = std::chrono::steady_clock::now();
+  const auto t1 = std::chrono::steady_clock::now();
+  if (std::getenv("C03_TIMING"))
+    std::fprintf(stderr, "C03_TIMING %s %.2f s\n", what, std::chrono::duration<double>(t1 - t0).count());
+  t0 = t1;
+}
 
 static GeoSpec
 random_spec(vh::Rng& rng, bool small)
@@ -1555,34 +1597,46 @@ main(int argc, char** argv)
     for (int k = 0; k < (thorough ? 4 : 2); ++k)
       {
         GeoSpec a;
+        a.R = 2;
+        a.max_delta = 1;
         a.zoom = 10.F;
         a.aniso = ratios[thorough ? k : 2 * rng.range(0, 1) + k];
         sampled.push_back(build_geo(a, next_id++));
       }
   }
 
+  lap("geometries");
   // ---- section A
   for (auto& g : full)
     section_A(*g, rng, 1);
   for (auto& g : sampled)
     section_A(*g, rng, thorough ? 2 : 5);
 
+  lap("section A");
   // ---- section C (oracle sweeps) on the geometries the ray tracing matrix accepts
   for (std::size_t k = 0; k < full.size(); ++k)
     {
+      if (k == 7)
+        lap("section C fixed");
+      if (full[k] == aniso[0])
+        lap("section C generated");
+      const bool is_aniso = std::find(aniso.begin(), aniso.end(), full[k]) != aniso.end();
       Sweep sw;
       sw.ntls = { 1, 2 };
       if (thorough)
         sw.ntls.push_back(3);
       if (thorough || k == 0)
         sw.restricts.push_back(0);
+      // (quick tier: the x/y voxel-size geometries with one ray, every fourth also with two)
+      if (is_aniso && !thorough && (k - (full.size() - aniso.size())) % 4 != 0)
+        sw.ntls = { 1 };
       // TOF data: the constructor leaves shift_z only, so the 32 combinations are 2 classes: sample them
       if (full[k]->sp.tof_bins > 0 && !thorough)
         sw.flag_stride = 4;
       section_C(*full[k], rng, sw);
       // use_actual_detector_boundaries (phi and s of every bin from the detector pair): where set_up keeps it on, and
       // on one geometry where set_up resets it
-      if (actual_boundaries_effective(*full[k]) || k == 1)
+      if ((actual_boundaries_effective(*full[k]) && (thorough || !is_aniso)) || k == 1)
         {
           Sweep sa;
           sa.actuals = { 1 };
@@ -1600,6 +1654,7 @@ main(int argc, char** argv)
         section_C(*full[k], rng, si);
       }
     }
+  lap("section C x/y voxel sizes");
   for (auto& g : sampled)
     if (g->sp.origin_x == 0.F && g->sp.origin_planes == std::floor(g->sp.origin_planes))
       {
@@ -1617,6 +1672,7 @@ main(int argc, char** argv)
         section_C(*g, rng, si);
       }
 
+  lap("section C sampled");
   // ---- section B (histories): geometry groups that differ in one aspect only
   shared_ptr<Geo> g_a2, g_a7;
   std::vector<shared_ptr<Geo>> groupT1, groupT2;
@@ -1672,7 +1728,7 @@ main(int argc, char** argv)
     {
       GeoSpec t1;
       t1.N = 8;
-      t1.R = 5;
+      t1.R = 6;
       t1.max_delta = 2;
       t1.ntang = 3;
       t1.m = 2;
@@ -1770,6 +1826,7 @@ main(int argc, char** argv)
       history(groupT1, rng, 100, 1);
   }
 
+  lap("section B");
   // ---- section F: set_up for contained / containing data on one object, every row afterwards
   {
     auto G = [](const shared_ptr<Geo>& g) { return g.get(); };
@@ -1784,6 +1841,10 @@ main(int argc, char** argv)
         section_F({ G(groupT2[0]), G(groupT2[k]) }, rng, 0, stride);
         section_F({ G(groupT2[k]), G(groupT2[0]) }, rng, 0, stride);
       }
+    // neither contains the other: the same numbers of axial positions, removed at opposite ends / in other segments
+    section_F({ G(groupT1[1]), G(groupT1[2]), G(groupT1[1]) }, rng, 0, stride);
+    section_F({ G(groupT1[4]), G(groupT1[5]), G(groupT1[7]) }, rng, 0, stride);
+    section_F({ G(groupT2[1]), G(groupT2[2]) }, rng, 0, stride);
     // chains: each contained in the one before, and back
     section_F({ G(groupT1[0]), G(groupT1[1]), G(groupT1[8]), G(groupT1[9]) }, rng, 0, stride);
     section_F({ G(groupT1[9]), G(groupT1[8]), G(groupT1[6]), G(groupT1[0]) }, rng, 0, stride);
@@ -1800,6 +1861,7 @@ main(int argc, char** argv)
       section_F({ G(groupT2[0]), G(groupT2[1]), G(groupT2[4]) }, rng, 1, stride);
   }
 
+  lap("section F");
   // ---- section E
   section_E(*full[0], *g_a2, rng);
   section_E(*g_a2, *full[0], rng);
@@ -1808,6 +1870,7 @@ main(int argc, char** argv)
   section_E(*full[0], *g_a2, rng, 1);
   section_E(*g_a7, *full[0], rng, 1);
 
+  lap("section E");
   // ---- section D
   section_D(rng, thorough ? 3000 : 400);
 
